@@ -151,7 +151,7 @@ func (t *PageTree) loadPages() error {
 	t.pages = make([]*Page, 0)
 
 	// Start recursive traversal from root
-	if err := t.traversePageNode(t.root, nil); err != nil {
+	if err := t.traversePageNode(t.root, nil, make(map[int]bool), 0); err != nil {
 		return fmt.Errorf("failed to traverse page tree: %w", err)
 	}
 
@@ -160,7 +160,15 @@ func (t *PageTree) loadPages() error {
 
 // traversePageNode recursively traverses a page tree node
 // parent is the parent Pages dictionary for inheritable attributes
-func (t *PageTree) traversePageNode(node core.Dict, parent core.Dict) error {
+//
+// visited holds the object numbers of the kids already entered and depth the
+// nesting level: a page tree is a tree, so a kid seen twice or an absurd depth
+// means the /Kids arrays form a cycle.
+func (t *PageTree) traversePageNode(node core.Dict, parent core.Dict, visited map[int]bool, depth int) error {
+	if depth > maxPageTreeDepth {
+		return fmt.Errorf("page tree nested deeper than %d levels", maxPageTreeDepth)
+	}
+
 	// Get the type to determine if this is a Pages node or Page leaf
 	typeObj := node.Get("Type")
 	if typeObj == nil {
@@ -193,6 +201,13 @@ func (t *PageTree) traversePageNode(node core.Dict, parent core.Dict) error {
 
 		// Traverse each child
 		for i, kidObj := range kids {
+			if ref, ok := kidObj.(core.IndirectRef); ok {
+				if visited[ref.Number] {
+					return fmt.Errorf("page tree cycle: object %d appears twice in /Kids", ref.Number)
+				}
+				visited[ref.Number] = true
+			}
+
 			// Resolve child reference
 			kidResolved, err := t.resolver.Resolve(kidObj)
 			if err != nil {
@@ -205,7 +220,7 @@ func (t *PageTree) traversePageNode(node core.Dict, parent core.Dict) error {
 			}
 
 			// Recursively traverse child (passing current node as parent)
-			if err := t.traversePageNode(kidDict, node); err != nil {
+			if err := t.traversePageNode(kidDict, node, visited, depth+1); err != nil {
 				return err
 			}
 		}
@@ -267,6 +282,9 @@ func (p *Page) CropBox() ([]float64, error) {
 
 // maxInheritDepth bounds the walk up the /Parent chain (guards against cycles).
 const maxInheritDepth = 256
+
+// maxPageTreeDepth bounds the nesting of /Kids arrays.
+const maxPageTreeDepth = 256
 
 // inheritedAttr looks up an inheritable attribute on the page itself and then on
 // each ancestor Pages node, nearest first, following /Parent up to the root.
